@@ -1,18 +1,20 @@
 #!/venv/bin/python
-"""C08 finding (known, not fixed): protein-level results with a target-only FASTA depend on numpy's GLOBAL random state.
+"""F32 (property C08; repaired in /repo ebd023e): protein-level results with a target-only FASTA depended on numpy's
+GLOBAL random state.
 
 Property C08: "With a fixed seed, repeating an analysis in the same process or in a fresh interpreter ... yields
 bit-identical ... result files (PSM, peptide and protein level)."
 
-With a FASTA that holds no decoy proteins, picked_protein() (mokapot/picked_protein.py, group_without_decoys) maps every
-decoy peptide to a target peptide of the same amino-acid composition through peptides.match_decoy(), which shuffles the
-target peptides with `targets.sample(frac=1)` - no random_state, i.e. numpy's global generator - and takes the first
-candidate.  The `rng` handed to assign_confidence / picked_protein is not used there.  When two target peptides are
-anagrams of each other, the protein a decoy peptide competes with changes from run to run (and, because the candidate
-order starts from the iteration order of a set of strings, with PYTHONHASHSEED), and so do the protein-level files.
+With a FASTA that holds no decoy proteins, picked_protein() (group_without_decoys) maps every decoy peptide to a target
+peptide of the same amino-acid composition through peptides.match_decoy(), which shuffled the target peptides with
+`targets.sample(frac=1)` - no random_state, i.e. numpy's global generator - and takes the first candidate.  The `rng`
+handed to assign_confidence / picked_protein was not used there.  When two target peptides are anagrams of each other,
+the protein a decoy peptide competes with changed from run to run.  ebd023e passes the rng of the run down.
+(The second half of the finding - the shuffle started from the key order of peptide_map, which inside one protein is the
+iteration order of a set of strings - was repaired by 9b4fbd9: repo_fixes/F33-repro-target-only-match-decoy-hashseed.py.)
 
-Run:  PYTHONPATH=/repo /venv/bin/python repo_fixes/C08-finding-target-only-match-decoy.py
-exit 1 = the defect shows (same rng, different protein table), 0 = it does not."""
+Run:  PYTHONPATH=/repo /venv/bin/python repo_fixes/F32-repro-target-only-match-decoy-global-state.py
+exit 1 = the defect shows (tree before ebd023e: same rng, different protein table), 0 = it does not."""
 import logging
 import shutil
 import sys
